@@ -5,7 +5,7 @@ walk order of the /Prev chain, trailer identity, type-byte agreement of xref-str
 writer, lookup arms for free / invalid / out-of-table entries.
 """
 import facts as F
-from cfg import CFG
+from cfg import CFG, ccp_reachable
 from flow import Flow, call_sites, arg_local, last_seg
 from inline import inlined
 from sym import PathSym, enum_paths, show, walk, strip, prefix_to, feasible
@@ -261,6 +261,7 @@ def rule_walk(ctx, f):
                 gets = [a for a in oa if a[0] == "call" and a[1] == "primitive::Dictionary::get"]
                 keys = set()
                 dict_ok = True
+                srcs = set()
                 for g in gets:
                     k = F.const_str(g[3]["args"][1])
                     if k is None:
@@ -274,9 +275,13 @@ def rule_walk(ctx, f):
                     dsrc = [a for a in fl.origins(dl) if a[0] == "call" and last_seg(a[1]) == "read_xref_and_trailer_at"]
                     if not dsrc:
                         dict_ok = False
-                okL = bool(gets) and keys == {"Prev"} and dict_ok and any(a[0] == "arg" for a in oa) \
+                    srcs |= {a[2] for a in dsrc}
+                # the chain is followed: the /Prev of the section read in one round is where the next round reads (the trailer of every
+                # section read - the first one and each later one - feeds the offset)
+                follows = {A[0]} | {x[0] for x in later} <= srcs
+                okL = bool(gets) and keys == {"Prev"} and dict_ok and follows and any(a[0] == "arg" for a in oa) \
                     and not any(a[0] == "call" and last_seg(a[1]) == "locate_xref_offset" for a in oa)
-                msg = "offset keys=%s dict_from_sections=%s" % (sorted(keys), dict_ok)
+                msg = "offset keys=%s dict_from_sections=%s every-section's-trailer-consulted=%s" % (sorted(keys), dict_ok, follows)
             ctx.check(okL, "C02-G1", b["id"] + "#later-at-prev",
                       "a later section is not read at the /Prev offset of a section read before: " + msg, L[1]["span"],
                       detail="later section offset derives from Dictionary::get(trailer, \"Prev\") + start_offset")
@@ -605,6 +610,35 @@ def rule_cursor(ctx, f):
                 n += 1
                 ctx.check(ok, "C02-G4", cb["id"] + "#subsection-cursor", "xref stream with several /Index subsections: " + why, t["span"],
                           detail="cursor outside the loop, advanced by every read")
+                # /Index is a list of pairs (first object number, number of entries): the reader gets them in that order
+                def const_of(body, bfl, loc):
+                    ds = bfl.defs.get(loc, [])
+                    return F.const_int(ds[0][2][1]) if len(ds) == 1 and ds[0][0] == "assign" and ds[0][2][0] == "use" else None
+
+                def element(body, bfl, op):
+                    """which element of the /Index pair the operand is: 0, 1 or None"""
+                    pl_ = F.op_place(op)
+                    if pl_ is None:
+                        return None
+                    r_ = bfl.resolve(pl_)
+                    idx = [e for e in r_[1:] if e[0] == "index"]
+                    if idx:
+                        return const_of(body, bfl, idx[-1][1])
+                    flds = [e[1] for e in r_[1:] if e[0] == "field"]
+                    if not flds:
+                        return None
+                    k_ = flds[-1]
+                    # the pair was made by a closure of this body (`.map(|c| (c[0], c[1]))`)
+                    for cl_ in f.closures_of(body["id"]):
+                        clf = Flow(cl_)
+                        for i_, j_, s_ in F.stmts(cl_):
+                            if s_[0] == "assign" and s_[1] == [0] and s_[2][0] == "aggregate" and s_[2][1].get("k") == "tuple" and len(s_[2][2]) == 2:
+                                return element(cl_, clf, s_[2][2][k_]) if k_ < 2 else None
+                    return None
+                if len(t["args"]) >= 2:
+                    e0, e1 = element(cb, cfl, t["args"][0]), element(cb, cfl, t["args"][1])
+                    ctx.check((e0, e1) == (0, 1), "C02-G4", cb["id"] + "#index-pair", "the reader of an /Index subsection is given (element %s, element %s) of the pair as (first "
+                              "object number, count): every subsection is stored under the wrong numbers" % (e0, e1), t["span"], detail="(first, count) = (pair[0], pair[1])")
         # inlined form (the reader holds the subsection loop itself): the cursor is a local that lives outside every loop around the read
         for (bi, t), root in zip(reads, roots):
             lps = [body for body in rcfg.loops().values() if bi in body]
@@ -640,6 +674,24 @@ def rule_columns(ctx, f):
             ctx.check(ok, "C02-SIB-table", "%s#%s-columns" % (b["id"], last_seg(F.callee_name(t))), "the arguments of %s are not (first token, second token) of the entry: "
                       "the generation and the offset / next-free number trade places, and precedence between revisions is decided on the wrong number"
                       % last_seg(F.callee_name(t)), t["span"], detail="(token 1, token 2 = generation)")
+            # the third token says which kind: `f` a free entry, `n` one in use
+            want_kw = "f" if last_seg(F.callee_name(t)) == "add_free_entry" else "n"
+            govern = set()
+            for ebi, et in F.calls(b):
+                if last_seg(F.callee_name(et)) in ("eq", "ne") and et.get("dest") and et.get("target") is not None and cfg.dominates(ebi, bi):
+                    kws = [F.const_str(a_) for a_ in et["args"] if F.const_str(a_) is not None]
+                    for a_ in et["args"]:
+                        if F.const_str(a_) is None and F.op_local(a_) is not None:
+                            kws += [x[1]["str"] for x in fl.origins(F.op_local(a_), passthrough=()) if x[0] == "const" and isinstance(x[1], dict) and "str" in x[1]]
+                    if len(kws) != 1:
+                        continue
+                    yes = 0 if last_seg(F.callee_name(et)) == "ne" else 1
+                    if bi in ccp_reachable(b, et["target"], init={et["dest"][0]: yes}, avoid={ebi}) and \
+                            bi not in ccp_reachable(b, et["target"], init={et["dest"][0]: 1 - yes}, avoid={ebi}):
+                        govern.add(kws[0])
+            ctx.check(govern == {want_kw}, "C02-SIB-table", "%s#%s-keyword" % (b["id"], last_seg(F.callee_name(t))), "%s is reached when the third token of an entry equals %s "
+                      "(7.5.4: `%s`): objects in use read as free and free ones as objects" % (last_seg(F.callee_name(t)), sorted(govern) or "?", want_kw), t["span"],
+                      detail="`%s` -> %s" % (want_kw, last_seg(F.callee_name(t))))
     ctx.floor("C02-SIB-table", n, 2, "entry constructions of the classic reader")
     # the trailer that is handed back is the newest section's, untouched: nothing in the /Prev walk writes into it
     for b in f.bodies.values():
@@ -664,11 +716,33 @@ def rule_columns(ctx, f):
                   muts[0]["span"] if muts else b["span"], detail="no insert / extend / remove on the first trailer")
 
 
+def rule_initial(ctx, f):
+    ctx.rule("C02-TABLE-init", "a new table consists of Invalid slots - the one kind every section entry may overwrite (C02-TABLE); a slot that starts as Free or Raw "
+             "would win against entries of the same generation")
+    b = f.body("xref::XRefTable::new")
+    if b is None:
+        ctx.lost("C02-TABLE-init", "xref::XRefTable::new")
+        return
+    fl = Flow(b)
+    fills = [(bi, t) for bi, t in F.calls(b) if last_seg(F.callee_name(t)) in ("resize", "from_elem", "resize_with", "extend") and len(t["args"]) >= 2]
+    ctx.floor("C02-TABLE-init", len(fills), 1, "fill of the new table")
+    for bi, t in fills:
+        vs = set()
+        for a in t["args"][1:]:
+            l = F.op_local(a)
+            for x in fl.origins(l, passthrough=()) if l is not None else []:
+                if x[0] == "agg" and x[1].get("adt") == XREF:
+                    vs.add(x[1].get("variant"))
+        ctx.check(vs == {"Invalid"}, "C02-TABLE-init", "XRefTable::new#slots", "the slots of a new table are %s, not Invalid: entries of the file with the same generation lose against "
+                  "the placeholder and every object reads as free / wrong" % sorted(vs), t["span"], detail="entries.resize(n, XRef::Invalid)")
+
+
 def run(ctx):
     f = F.load("default")
     ctx.count("bodies", len(f.bodies))
     ctx.count("config", 1)
     rule_table(ctx, f)
+    rule_initial(ctx, f)
     rule_walk(ctx, f)
     rule_typebytes(ctx, f)
     rule_lookup(ctx, f)
